@@ -65,6 +65,40 @@ def gen_keys(rng, n):
     return [(k, m | fixed) for k, m in kms]
 
 
+MERGED_POOL = []       # key/masks of merged entries made by earlier minimisations of this process (KW bits)
+
+
+def km_to_tern(km):
+    k, m = km
+    return "".join("X" if not (m >> i) & 1 else str((k >> i) & 1) for i in reversed(range(KW)))
+
+
+def gen_keys_follow_up(rng, n):
+    """Keys of a LATER application in the same process: one net uses, as its own key/mask, a merged entry that an
+    earlier minimisation produced, and the others lie next to it (its fixed bits changed in one or two places, its
+    don't-care positions narrowed) - so that what an earlier call remembered about that key/mask would matter."""
+    base = km_to_tern(rng.choice(MERGED_POOL))
+    fixed_pos = [i for i, c in enumerate(base) if c != "X"]
+    kms = [tern_to_km(base)]
+    tries = 0
+    while len(kms) < n and tries < 300 * n:
+        tries += 1
+        t = list(base)
+        for i in rng.sample(fixed_pos, min(len(fixed_pos), rng.choice((1, 1, 2)))):
+            t[i] = "1" if t[i] == "0" else "0"
+        for i, c in enumerate(base):
+            if c == "X":
+                t[i] = rng.choice("01X0")
+        km = tern_to_km("".join(t))
+        if all(not km_intersect(km, o) for o in kms):
+            kms.append(km)
+    if len(kms) < n:
+        return None
+    rng.shuffle(kms)
+    fixed = 0xffffffff & ~((1 << KW) - 1)
+    return [(k, m | fixed) for k, m in kms]
+
+
 def matching_keys(rng, km, count):
     k, m = km[0], km[1] & ((1 << KW) - 1)
     free = (~m) & ((1 << KW) - 1)
@@ -72,6 +106,21 @@ def matching_keys(rng, km, count):
     for _ in range(count):
         out.append(k | (rng.getrandbits(KW) & free))
     return sorted(set(out))
+
+
+def fixed_pos_ok():
+    return any("X" in km_to_tern(km) and km_to_tern(km).strip("X") for km in MERGED_POOL[-50:])
+
+
+def note_merged(tables0, tables):
+    """remember the merged entries a minimisation produced (entries of the result that the input did not have)"""
+    for chip, t in tables.items():
+        before = {(e.key, e.mask) for e in tables0.get(chip, ())}
+        for e in t:
+            low = (1 << KW) - 1
+            if (e.key, e.mask) not in before and (e.mask | low) == 0xffffffff and (e.mask & low) != low:
+                MERGED_POOL.append((e.key & low, e.mask & low))
+    del MERGED_POOL[:-200]
 
 
 def gen_dense_problem(rng, chk):
@@ -84,7 +133,11 @@ def gen_dense_problem(rng, chk):
     names = list(vr)
     cons = [ReserveResourceConstraint(Cores, slice(0, 1))] if rng.random() < 0.5 else []
     nnets = rng.randint(6, 16)
-    keys = gen_keys(rng, nnets)
+    if MERGED_POOL and fixed_pos_ok() and rng.random() < 0.4:
+        nnets = rng.randint(3, 8)
+        keys = gen_keys_follow_up(rng, nnets)
+    else:
+        keys = gen_keys(rng, nnets)
     if keys is None:
         return None
     nets, net_keys = [], {}
@@ -286,6 +339,8 @@ def run(chk):
                 except Exception as ex:
                     traces.append(failure_trace(m, label, ex))
                     continue
+                if methods is not None:
+                    note_merged(tables0, tables)
                 traces.append(make_trace(chk, rng, m, nets, net_keys, placements, allocations, cons, tables, label))
                 chk.note_case((label, traces[-1]["tables"], traces[-1]["nets"]),
                               nontrivial=any(len(t[2]) > 1 for t in traces[-1]["tables"]))
